@@ -81,6 +81,14 @@ def check_cfg(c):
             recs.append(cex(f"C01:value:{'smear' if c.smear else 'plain'}:{'bound' if c.bound else 'full'}:ip{int(c.ip)}it{int(c.it)}if{int(c.if_)}",
                             f"returned signal differs from t_profile*f_profile*bandpass specification at {c!r}",
                             inject.model_payload(c, ex, m2), name=name))
+        # the caller's arrays still hold the description that was passed in
+        moved = [z3.simplify(lift(a) - lift(b), som=True) != 0 for k in leaf.value['in_before'] for a, b in zip(leaf.value['in_after'][k], leaf.value['in_before'][k])]
+        if moved:
+            r, m = core.check(pre + leaf.pc + leaf.side + [z3.Or(*moved)], timeout_ms=30000)
+            recs.append(q(name + ':inputs', r, arrays=len(leaf.value['in_before'])))
+            if r == 'sat':
+                recs.append(cex(f"C01:inputs-modified:{'smear' if c.smear else 'plain'}", f"add_signal modifies the caller's array inputs at {c!r}",
+                                inject.model_payload(c, ex, inject.nice_model(pre + leaf.pc + leaf.side + [z3.Or(*moved)], ex) or m), name=name + ':inputs'))
     # completeness of the case split + vacuity twin (some path is reachable)
     r, _ = core.check(pre + [z3.Not(z3.Or(*conds))] if conds else pre, timeout_ms=30000)
     recs.append(q(f"C01:{c!r}:split-complete", r))
